@@ -23,7 +23,7 @@ type Prop struct{}
 func (Prop) ID() string    { return "C09" }
 func (Prop) Level() string { return "exploration" }
 func (Prop) Rule() string {
-	return "state pairs (responder i, requester j) are sampled mid-run and at the end of C01-style simulated schedules of real sync trees (diverged, one ahead, reduced to later snapshots, concurrent snapshots, requester heads partly unknown); for each pair and each batch limit in {1,64,300,2000,1MiB,1GiB} the real load iterator's batches are checked (completeness vs stored-set difference, causal placement, size bound, announced heads) and applied in order through the wire encoding and the real response handler to a clone of the requester's database; plus the empty-heads request. Non-trivial = the responder holds >=1 change the requester lacks; distinct = hash(responder stored ids, requester heads, limit)."
+	return "state pairs (responder i, requester j) are sampled mid-run and at the end of C01-style simulated schedules of real sync trees (diverged, one ahead, reduced to later snapshots, concurrent snapshots, requester heads partly unknown); for each pair and each batch limit in {1,64,300,2000,1MiB,1GiB} the real load iterator's batches are checked (completeness vs stored-set difference, causal placement, size bound, announced heads) and applied in order through the wire encoding and the real response handler to a clone of the requester's database; plus the empty-heads request; workload snap-pairs runs the same checks on schedules with snapshot probability 0.3-0.6 by 3-4 writers under 30-60 % loss (replicas reduced to different, often concurrent same-base snapshots). Non-trivial = the responder holds >=1 change the requester lacks; distinct = hash(responder stored ids, requester heads, limit)."
 }
 func (Prop) Assumptions() []string {
 	return []string{"both states were reached through honest participation in the simulator (ancestor-closed stored sets)", "size of a change = length of its raw bytes (what the statement's limit is applied to)"}
@@ -34,7 +34,9 @@ func (Prop) Plan(tier string) []lib.Workload {
 	if tier == "thorough" {
 		n = 1200
 	}
-	return []lib.Workload{{Name: "pairs", Cases: n, MinNontrivial: n}}
+	// snap-pairs (added after seeded change C09-5 was caught by a single pair only): the same pair checks on
+	// schedules with many snapshots by several writers under heavy loss
+	return []lib.Workload{{Name: "pairs", Cases: n, MinNontrivial: n}, {Name: "snap-pairs", Cases: n * 2 / 3, MinNontrivial: n / 2}}
 }
 
 var limits = []int{1, 64, 300, 2000, 1 << 20, 1 << 30}
@@ -42,10 +44,13 @@ var bg = context.Background()
 
 func (Prop) RunCase(c *lib.Case) {
 	samples := 0
-	maxSamples := 4
+	maxSamples, every := 4, 12
+	if c.Workload == "snap-pairs" {
+		maxSamples, every = 6, 8
+	}
 	hook := &c01.Hook{
 		AfterStep: func(s *netsim.Sim, step int) {
-			if samples < maxSamples && c.Rng.Intn(12) == 0 {
+			if samples < maxSamples && c.Rng.Intn(every) == 0 {
 				if checkRandomPair(c, s) {
 					samples++
 				}
